@@ -85,7 +85,56 @@ def _oracle(ctx: Ctx, frame, terms, efr, na, cd, output, det):
             ctx.fail(f"with rank reduction off the columns are {names}, the full Kronecker product is {want_names}", rp)
 
 
+def _coded_products(ctx: Ctx):
+    """contrast-coded factors inside interactions, used at full rank in one term and at reduced rank in another (F:a + F:B without margins,
+    any order): every column is the product of the single-factor columns its label names, where a single-factor column is what the factor
+    alone gives under that label ('0 + F' for the full coding, '1 + F' for the reduced one)"""
+    import numpy as np
+    import pandas as pd
+    from formulaic import model_matrix
+    rng = ctx.fork("coded-products")
+    codings = ["contr.sum", "contr.helmert", "contr.diff", "contr.treatment(base='y')", "contr.poly", "contr.SAS", "contr.helmert(reverse=False, scale=True)", "contr.diff(backward=False)"]
+    for i in range(ctx.n(100, 1500)):
+        n = rng.randint(7, 12)
+        df = pd.DataFrame({"a": [float(rng.randint(-4, 9)) + 0.25 * k for k in range(n)], "b": [float(rng.randint(1, 5)) for _ in range(n)],
+                           "A": pd.Series([["x", "y", "z"][k % 3] for k in range(n)], dtype=object), "B": pd.Series([["u", "v"][(k // 2) % 2] for k in range(n)], dtype=object),
+                           "G": pd.Series([["p", "q", "r"][(k * 2 + k // 3) % 3] for k in range(n)], dtype=object)})
+        F = f"C(A, {rng.choice(codings)})"
+        F2 = rng.choice(["B", "G", f"C(G, {rng.choice(codings[:4]).replace(chr(39) + 'y' + chr(39), chr(39) + 'q' + chr(39))})"])
+        shapes = ["{F}:a + {F}:{F2}", "{F}:{F2} + {F}:a", "{F}:a + {F}", "{F2}:{F} + a:{F} + {F2}", "0 + {F}:a + {F}:{F2}", "a:{F} + b:{F} + {F}:{F2}:b", "{F} + {F}:{F2}",
+                  "{F}:{F2} + {F2}:{F}:a", "0 + {F} + {F}:{F2}"]
+        f = rng.choice(shapes).replace("{F2}", F2).replace("{F}", F)
+        out = rng.choice(["pandas", "numpy", "sparse"])
+        efr = rng.random() < 0.8
+        rp = {"kind": "coded-products", "formula": f, "output": out, "ensure_full_rank": efr, "rows": n}
+        ctx.oracle_runs += 1
+        try:
+            mm = model_matrix(f, df, output=out, ensure_full_rank=efr)
+            names = list(mm.model_spec.column_names)
+            arr = np.asarray(mm.toarray() if out == "sparse" else mm, dtype=float)
+            single = {"Intercept": np.ones(n), "a": df["a"].to_numpy(), "b": df["b"].to_numpy()}
+            for fac in (F, F2):
+                for ref in (f"0 + {fac}", f"1 + {fac}"):
+                    r = model_matrix(ref, df)
+                    for c in r.columns:
+                        single.setdefault(str(c), np.asarray(r[c], dtype=float))
+        except Exception as e:
+            ctx.fail(f"{f!r}: {type(e).__name__}: {str(e)[:200]}", rp)
+            continue
+        for j, name in enumerate(names):
+            parts = name.split(":")
+            if any(p_ not in single for p_ in parts):
+                ctx.fail(f"{f!r}: column {name!r} names {[p_ for p_ in parts if p_ not in single]}, which no factor of the formula produces on its own", rp)
+                break
+            want = np.prod([single[p_] for p_ in parts], axis=0)
+            if not np.allclose(arr[:, j], want, rtol=1e-12, atol=1e-12):
+                ctx.fail(f"{f!r} ({out}): column {name!r} holds {arr[:, j].tolist()}; the product of the single-factor columns {parts} is {want.tolist()}", rp)
+                break
+        ctx.count("coded-products", F.split("contr.")[1].split("(")[0].rstrip(")"))
+
+
 def run(ctx: Ctx):
+    _coded_products(ctx)
     rng = ctx.fork("build")
     lits, descr = [], []
     for i in range(ctx.n(700, 12000)):
